@@ -1,5 +1,5 @@
 (* C18 — hitsound copy.  Property theorems only: each is closed by [exact] from Proofs/HitsoundCopyProofs.v. *)
-From Coq Require Import ZArith List Bool.
+From Coq Require Import ZArith List Bool Permutation.
 From RV Require Import Algo.HitsoundCopy Algo.HitsoundCopySpec Proofs.HitsoundCopyProofs.
 Import ListNotations.
 Open Scope Z_scope.
@@ -36,3 +36,32 @@ Theorem C18_semicolon_refuted :
     wf src tgt = true /\ tgt_silent tgt = true /\ no_multi_overflow src tgt = true /\
     hitsound_copy psrc ptgt src tgt = Some out /\ ~ no_invention src out /\ ~ named_conserved src out.
 Proof. exact hs_semicolon_refuted. Qed.
+
+(* The slot rule at one time, for all volume groups and any number of notes at that time: as many notes are written
+   as the sounds need or all of them; never more claps/finishes/whistles than the source groups have, all of them
+   when everything fits; every (file, volume) written or sampled comes from the groups; what is lost is bounded by
+   the named samples beyond the first of each volume group, and nothing is lost (nor sampled) when everything fits. *)
+Theorem C18_slot_rule : forall off vgs free ws ss,
+  (forall vg, In vg vgs -> 0 <= fst vg) ->
+  plan_groups off vgs free = (ws, ss) ->
+  length ws = Nat.min (total_need vgs) free
+  /\ (nb 2 ws <= total_bit 2 vgs /\ nb 4 ws <= total_bit 4 vgs /\ nb 8 ws <= total_bit 8 vgs)%nat
+  /\ ((total_need vgs <= free)%nat ->
+        nb 2 ws = total_bit 2 vgs /\ nb 4 ws = total_bit 4 vgs /\ nb 8 ws = total_bit 8 vgs)
+  /\ exists rest, Permutation (group_pairs vgs) (wfile_pairs ws ++ sample_pairs ss ++ rest)
+                  /\ (length rest <= spare vgs)%nat
+                  /\ ((total_need vgs <= free)%nat -> rest = [] /\ ss = []).
+Proof. exact plan_groups_spec. Qed.
+
+(* non-vacuity: a pair inside every guard (hits and holds on both sides, two volumes, a named sample, more than one
+   time) on which the model runs and the full specification holds *)
+Definition ex_src : hmap :=
+  mkM [mkN 8 0 None 2 0 0 0 20 [0]; mkN 8 1 None 4 0 0 0 20 [0]; mkN 8 3 None 2 0 0 0 30 [0]; mkN 24 0 None 0 0 0 0 50 [7]]
+      [mkN 8 4 (Some 16) 12 0 0 0 40 [0]; mkN 8 5 (Some 16) 0 0 0 0 20 [1]] [].
+Definition ex_tgt : hmap :=
+  mkM [mkN 8 0 None 0 1 0 0 0 [0]; mkN 8 1 None 0 0 0 0 70 [0]; mkN 8 2 None 0 0 0 0 0 [0]; mkN 16 2 None 0 0 0 0 0 [0]]
+      [mkN 8 3 (Some 80) 0 0 0 0 0 [0]; mkN 24 3 (Some 8) 0 0 0 0 0 [0]] [].
+Example C18_nonvacuous :
+  wf ex_src ex_tgt = true /\ tgt_silent ex_tgt = true /\ no_semicolon ex_src = true /\ no_multi_overflow ex_src ex_tgt = true
+  /\ exists out, hitsound_copy [0;1;2;4;5;3]%nat [0;1;2;4;3;5]%nat ex_src ex_tgt = Some out /\ specb ex_src ex_tgt out = true.
+Proof. repeat split; try (vm_compute; reflexivity). eexists. split; vm_compute; reflexivity. Qed.
